@@ -38,6 +38,7 @@ import (
 	zx509 "github.com/zmap/zcrypto/x509"
 	zpkix "github.com/zmap/zcrypto/x509/pkix"
 	"verifmc/internal/ev"
+	"verifmc/internal/nohb"
 )
 
 // ------------------------------------------------------------------ tables
@@ -1521,6 +1522,10 @@ func rdnForms(alpha []atom, maxLen int) [][]atom {
 // ------------------------------------------------------------------ main
 
 func main() {
+	if nohb.IsWorker() {
+		nohb.WorkerMain(reentrantOps(), reentrantRepoDir())
+		return
+	}
 	ev.Main("C22", "model_checking", func(c *ev.Ctx) {
 		d := &d1{ef: enumFields()}
 		rep := func(sig string, w witness) { c.Violation(sig, w) }
@@ -1749,6 +1754,7 @@ func main() {
 			c.Incomplete("D1: budget hit before all field combinations were enumerated")
 		}
 		d.flush(c)
+		reentrantPhase(c)
 
 	})
 }
